@@ -120,6 +120,10 @@ def _analyze(mod, ob, mode, timeout, exclude=()):
         return None
     _enf.EnforcedConditions.trace_call = _trace_call
 
+    from . import models
+    models.install_lru_model()
+    models.snapshot_process_state()
+
     stats = {"z3_checks": 0, "z3_time": 0.0}
     orig_check = z3.Solver.check
 
@@ -164,6 +168,11 @@ def _analyze(mod, ob, mode, timeout, exclude=()):
             p0 = cond.post[0]
             cond = replace(cond, post=[ConditionExpr(POSTCONDITION, lambda _b: False,
                                                      p0.filename, p0.line, "False")])
+        # every path starts from the module state of a fresh interpreter (vf.models)
+        from crosshair.condition_parser import PRECONDITION as _PRE
+        p0 = cond.post[0]
+        cond = replace(cond, pre=[ConditionExpr(_PRE, lambda _b: models.fresh_process_state(), p0.filename,
+                                                p0.line, "True")] + list(cond.pre))
         if exclude:
             from crosshair.condition_parser import PRECONDITION
             ev, src = _exclusion_pre(exclude, mod.PART)
